@@ -31,7 +31,8 @@ ASSUMPTIONS = [
 ]
 
 ATTRS = ["no_data_img", "valid_pixels", "no_data_mask", "crs", "transform"]
-DS_VIOLATIONS = (["L:no-im", "R:no-im", "L:all-nan", "R:all-nan", "L:band-not-str", "R:band-not-str", "L:msk-off-grid",
+DS_VIOLATIONS = (["L:no-im", "R:no-im", "L:all-nan", "R:all-nan", "L:band-not-str", "R:band-not-str", "L:band-partly-str",
+                 "R:band-partly-str", "L:msk-off-grid",
                   "R:msk-off-grid"] + [f"L:attr-{a}" for a in ATTRS[:3]] + [f"R:attr-{a}" for a in ATTRS[3:]] +
                  ["L:no-disparity", "L:band_disp-names", "L:band_disp-only-min", "L:no-band_disp", "L:min>max", "R:min>max",
                   "R:other-size"])
@@ -73,7 +74,7 @@ def base_pair(cls: int, seed: int = 0):
 
 def applicable(cls: int, v: str) -> bool:
     side, what = v.split(":")
-    if what == "band-not-str":
+    if what in ("band-not-str", "band-partly-str"):
         return cls == 1
     if what == "msk-off-grid":
         return True
@@ -93,6 +94,9 @@ def apply_ds(l: xr.Dataset, r: xr.Dataset, v: str):
     elif what == "band-not-str":
         if "band_im" in ds.coords:
             ds = ds.assign_coords(band_im=[1, 2, 3])
+    elif what == "band-partly-str":
+        if "band_im" in ds.coords:
+            ds = ds.assign_coords(band_im=np.array(["r", 2, "b"], dtype=object))
     elif what == "msk-off-grid":
         if "im" in ds:
             h, w = ds["im"].shape[-2:]
